@@ -198,7 +198,12 @@ def run_case(ns, mon, c):
                 t = T((rng.uniform(0, 1, tuple(c["shape"])) > 0.5).astype(idt_))
                 args_extra = {"target_dtype": idt_}
             red = c["reduction"]
-            res, nel = both([x], lambda a: nn.BCEWithLogitsLoss(reduction=red)(a, t), lambda a: nn.BCELoss(reduction=red)(sg.sigmoid(a), t), 1e-6, 1e-6)
+            if c["seed"] % 3 == 1:
+                # soft targets that are learnable themselves (both sides get the target as a second operand)
+                tv_ = rng.uniform(0.05, 0.95, tuple(c["shape"]))
+                res, nel = both([x, tv_], lambda a, tt: nn.BCEWithLogitsLoss(reduction=red)(a, tt), lambda a, tt: nn.BCELoss(reduction=red)(sg.sigmoid(a), tt), 1e-6, 1e-6)
+            else:
+                res, nel = both([x], lambda a: nn.BCEWithLogitsLoss(reduction=red)(a, t), lambda a: nn.BCELoss(reduction=red)(sg.sigmoid(a), t), 1e-6, 1e-6)
         elif ident == "logsoftmax":
             x = rng.uniform(-4, 4, tuple(c["shape"]))
             if c["seed"] % 3 == 0 and len(c["shape"]) >= 2:
